@@ -369,16 +369,158 @@ Proof.
 Qed.
 
 (* ------------------------------------------------------------------ lexicase family *)
+(* every individual has one value per weight (what `uniform` gives), so x.fitness.values[c] and
+   fit_weights[c] do not raise for the cases c < |w| that the shuffled list contains *)
+Definition unif (w : list Q) (l : list ind) : Prop := Forall (fun x => length (values w x) = length w) l.
+
+Lemma uniform_unif w l : uniform w l -> unif w l.
+Proof. apply Forall_impl. intros x H. apply values_length. exact H. Qed.
+
+Lemma unif_sub w l l' : (forall x, In x l' -> In x l) -> unif w l -> unif w l'.
+Proof. unfold unif. rewrite !Forall_forall. auto. Qed.
+
+Lemma index_val w x c ds : length (values w x) = length w -> c < length w -> index (values w x) c ds = Ok (val w x c) ds.
+Proof. intros H Hc. unfold val. apply index_nth. lia. Qed.
+
+Lemma map_nonempty {A B} (f : A -> B) l : 1 < length l -> map f l <> [].
+Proof. destruct l; cbn; [lia|discriminate]. Qed.
+
+(* straight-line monadic code whose steps all return: run it step by step *)
+Ltac ok_solve :=
+  lazymatch goal with
+  | |- ret _ _ = Ok _ _ => reflexivity
+  | |- index (_ :: _) 0 _ = Ok _ _ => apply index_cons0
+  | |- pop0 (_ :: _) _ = Ok _ _ => apply pop0_cons
+  | |- index (values _ _) _ _ = Ok _ _ =>
+      apply index_val; [ match goal with U : unif _ ?l, I : In _ ?l |- _ => exact (proj1 (Forall_forall _ _) U _ I) end
+                       | assumption ]
+  | |- index _ _ _ = Ok _ _ => apply (index_nth _ _ 0%Q); assumption
+  | |- qmaxM _ _ = Ok _ _ => apply qmaxM_ok; apply map_nonempty; assumption
+  | |- qminM _ _ = Ok _ _ => apply qminM_ok; apply map_nonempty; assumption
+  | |- mapM _ _ _ = Ok _ _ => eapply mapM_pure; intros ? ? ?; run_ok
+  | |- filterM _ _ _ = Ok _ _ => eapply filterM_pure; intros ? ? ?; run_ok
+  end
+with run_ok :=
+  repeat (cbv beta zeta; cbn [fst snd];
+          lazymatch goal with
+          | |- bind ?m ?f ?d = _ => erewrite (bind_Ok_eq m f d) by ok_solve
+          end);
+  cbv beta zeta; try ok_solve.
+
+Ltac run :=
+  repeat (cbv beta iota zeta; cbn [fst snd];
+          match goal with
+          | |- context [if ?b then _ else _] => destruct b eqn:?
+          | |- bind (bind _ _) _ _ = _ => rewrite bind_assoc
+          | |- bind ?m ?f ?d = _ => erewrite (bind_Ok_eq m f d) by ok_solve
+          end).
+
+Section LexLoop.
+  Variable w : list Q.
+  Variable step : nat -> list ind -> list ind.
+  Hypothesis step_sub : forall c cands x, In x (step c cands) -> In x cands.
+
+  (* `while len(cases) > 0 and len(candidates) > 1: candidates = step(cases[0]); cases.pop(0)` *)
+  Lemma lex_while (body : list ind * list nat -> M (list ind * list nat)) :
+    (forall c cs cands d, c < length w -> unif w cands -> 1 < length cands ->
+       body (cands, c :: cs) d = Ok (step c cands, cs) d) ->
+    forall cases cands fuel d, Forall (fun c => c < length w) cases -> unif w cands -> length cases < fuel ->
+      exists cs',
+        while_fuel fuel (fun '(candidates, cases) => Nat.ltb 0 (length cases) && Nat.ltb 1 (length candidates)) body
+                   (cands, cases) d = Ok (lex_filter step cases cands, cs') d.
+  Proof.
+    intros Hb cases. induction cases as [|c cs IH]; intros cands fuel d Hc U Hf.
+    - exists []. destruct fuel; reflexivity.
+    - destruct fuel as [|f]; [lia|]. cbn [while_fuel lex_filter]. inversion Hc; subst.
+      change (Nat.ltb 0 (length (c :: cs))) with true. cbn [andb].
+      destruct (Nat.leb_spec (length cands) 1) as [E|E]; destruct (Nat.ltb_spec 1 (length cands)) as [E'|E']; try lia.
+      + eexists. reflexivity.
+      + rewrite (bind_Ok_eq _ _ _ _ _ (Hb c cs cands d H1 U E)).
+        apply IH; [assumption| |cbn in Hf; lia]. eapply unif_sub; [apply step_sub|exact U].
+  Qed.
+
+  (* the same loop written `for case in cases: if len(candidates) <= 1: break; candidates = step(case)` *)
+  Lemma lex_for (body : nat -> list ind -> M (ctl (list ind))) :
+    (forall c cands d, c < length w -> unif w cands ->
+       body c cands d = if Nat.leb (length cands) 1 then Ok (Break cands) d else Ok (Next (step c cands)) d) ->
+    forall cases cands d, Forall (fun c => c < length w) cases -> unif w cands ->
+      for_break cases body cands d = Ok (lex_filter step cases cands) d.
+  Proof.
+    intros Hb cases. induction cases as [|c cs IH]; intros cands d Hc U; [reflexivity|].
+    inversion Hc; subst. cbn [for_break lex_filter]. unfold bind at 1. rewrite (Hb c cands d H1 U).
+    destruct (Nat.leb (length cands) 1); [reflexivity|]. apply IH; [assumption|].
+    eapply unif_sub; [apply step_sub|exact U].
+  Qed.
+
+End LexLoop.
+
+Lemma shuffled_cases w x0 d cases d1 :
+  length (wv x0) = length w -> shuffle (seq 0 (length (values w x0))) d = Ok cases d1 ->
+  Forall (fun c => c < length w) cases.
+Proof.
+  intros H Hs. apply shuffle_Ok in Hs as (p & _ & _ & ->). apply Forall_forall. intros c Hc.
+  apply pick_In in Hc. apply in_seq in Hc. rewrite (values_length w x0 H) in Hc. lia.
+Qed.
+
+Ltac lex_finish :=
+  unfold ret, step_auto, step_eps, step_plain, mad, maximised; cbv zeta;
+  repeat match goal with H : Qltb _ _ = _ |- _ => rewrite H end; reflexivity.
+
+(* one selection of the generated loop is one selection of lexicase_gen: the population is read
+   (IndexError when empty), the cases are shuffled, the filter loop is lex_filter, one choice *)
+Ltac lex_round step step_sub :=
+  let i := fresh "i" in let acc := fresh "acc" in let d := fresh "d" in
+  intros i acc d;
+  match goal with U : uniform ?w ?inds |- _ =>
+    destruct inds as [|x0 r]; [reflexivity|];
+    repeat (cbv beta zeta; rewrite (bind_Ok_eq _ _ _ _ _ (index_cons0 x0 r _)));
+    cbv beta zeta; refine (eq_trans _ (eq_sym (bind_assoc _ _ _ _)));
+    apply bind_ext_ok; intros cases d1 Hs;
+    pose proof (shuffled_cases w x0 d cases d1 (Forall_inv U) Hs) as Hcases;
+    first
+      [ (* while shape *)
+        match goal with |- context [while_fuel ?fuel ?cond ?body (_, cases)] =>
+          let E := fresh "E" in
+          destruct (lex_while w step step_sub body
+                      ltac:(intros c cs cands d' Hc Hu Hl; run; lex_finish)
+                      cases (x0 :: r) fuel d1 Hcases (uniform_unif w _ U) ltac:(cbn [length]; lia)) as [cs' E];
+          rewrite (bind_Ok_eq _ _ _ _ _ E); reflexivity
+        end
+      | (* for ... break shape *)
+        match goal with |- context [for_break cases ?body (x0 :: r)] =>
+          let E := fresh "E" in
+          pose proof (lex_for w step step_sub body
+                        ltac:(intros c cands d' Hc Hu; destruct (Nat.leb_spec (length cands) 1); [reflexivity|]; run; lex_finish)
+                        cases (x0 :: r) d1 Hcases (uniform_unif w _ U)) as E;
+          rewrite (bind_Ok_eq _ _ _ _ _ E); reflexivity
+        end ]
+  end.
+
 Lemma gen_selLexicase_eq w inds k ds : uniform w inds -> gen_selLexicase w inds k ds = selLexicase w inds k ds.
-Proof. intro U. first [ reflexivity ]. Qed.
+Proof.
+  intro U.
+  first [ reflexivity
+        | unfold gen_selLexicase, selLexicase, lexicase_gen; cbv zeta; apply rounds_loop;
+          lex_round (step_plain w) (step_plain_sub w) ].
+Qed.
 
 Lemma gen_selEpsilonLexicase_eq w inds k eps ds :
   uniform w inds -> gen_selEpsilonLexicase w inds k eps ds = selEpsilonLexicase w inds k eps ds.
-Proof. intro U. first [ reflexivity ]. Qed.
+Proof.
+  intro U.
+  first [ reflexivity
+        | unfold gen_selEpsilonLexicase, selEpsilonLexicase, lexicase_gen; cbv zeta; apply rounds_loop;
+          lex_round (step_eps eps w) (step_eps_sub w eps) ].
+Qed.
 
 Lemma gen_selAutomaticEpsilonLexicase_eq w inds k ds :
   uniform w inds -> gen_selAutomaticEpsilonLexicase w inds k ds = selAutomaticEpsilonLexicase w inds k ds.
-Proof. intro U. first [ reflexivity ]. Qed.
+Proof.
+  intro U.
+  first [ reflexivity
+        | unfold gen_selAutomaticEpsilonLexicase, selAutomaticEpsilonLexicase, lexicase_gen; cbv zeta; apply rounds_loop;
+          lex_round (step_auto w) (step_auto_sub w) ].
+Qed.
 
 (* ================================================================== the source is the model *)
 Theorem source_is_model :
